@@ -12,10 +12,10 @@ CLAIMED = {
        "interleaving): the read routine always has an enabled step to leave a failed connection (the semaphore never holds a value toOffline "
        "cannot take), whoever holds the write lock can give it back in one own step, a failed write closes the connection and leaves the "
        "pending marker after which toOffline and redial are enabled, Online/live after a successful connect, one writer at a time; plus the "
-       "ReadBackoff bounds on the modelled formula and the no-wait write of the read routine (F4 repair). Scenarios with goroutines blocked at "
+       "ReadBackoff bounds on the modelled formula for every Config (newClient's normalisation of the waits), the no-wait write of the read routine (F4 repair), toOffline always drops the read state and a failed BigMessage.ReadAll gives the connection up (F26 repair), lock order and signal order as regenerated facts. Scenarios with goroutines blocked at "
        "I/O boundaries (Dialer, CONNACK, conn.Write interrupted by broker close) run against the real client with hang/busy-loop detection.",
   design="6/C10", technique="Lean 4 proof (LTS invariants over all interleavings, any number of actors) + differential correspondence at I/O boundaries",
-  note="partial: A-atomic (one step = one channel operation); the Sync skeleton is tied to the code by the session scenarios only; fairness, timers and wall-clock are outside; ReadBackoff is not compared with the implementation"),
+  note="partial: A-atomic (one step = one channel operation); the Sync skeleton is tied to the code by the session scenarios and by the regenerated lock-order and signal-order facts; fairness, timers and wall-clock are outside (ReadBackoff's idle time is observed at a hook and compared, its timer is not awaited)"),
  "C11": dict(
   text="Lean 4 theorems: endTx hands out exactly the transaction registered under the identifier, startTx never hands out zero, a foreign "
        "space or an identifier still registered, breakAll releases every registered request with exactly one ErrBreak and empties the table, "
@@ -30,9 +30,9 @@ CLAIMED = {
        "past connSem and never together with a connecting reader (no double close), and a closer holding connSem can always finish within "
        "three steps - its own plus one release by the lock holder (no deadlock). Close/Disconnect in every state the harness can hold a "
        "goroutine in (never connected, in the Dialer, awaiting CONNACK - the F6 deadlock, now repaired -, writer inside conn.Write, offline, "
-       "closed, repeated) run against the real client; afterwards every method must return ErrClosed.",
+       "closed, repeated) run against the real client; afterwards every method must return ErrClosed. Regenerated facts: closers take connection control before the write lock; connect, toOffline, Close and Disconnect flip the signals block-first, before the write semaphore is handed back or closed (never both released from any state, final state as required).",
   design="6/C12", technique="Lean 4 proof (LTS invariants + bounded reachability of closure) + differential correspondence at I/O boundaries",
-  note="partial: A-atomic; promptness = returns while all other goroutines are at rest (no wall-clock); goroutine/connection leaks not measured; termCallbacks flushers not in the LTS"),
+  note="partial: A-atomic; promptness = returns while all other goroutines are at rest (no wall-clock); goroutine/connection leaks not measured; termCallbacks is proved on the session model (every pending exchange gets ErrClosed once), its flusher goroutines are not in the LTS"),
  "C19": dict(
   text="Lean 4 theorems over Save/Delete as system-call programs on a directory: for every previous content, value, buffer split and stop "
        "point (before/after any call, inside a data write after any byte count) the key loads as its complete old or complete new value and "
@@ -41,7 +41,7 @@ CLAIMED = {
        "strace system-call sequence with the model program and by real SIGKILL injection at every call, RLIMIT_FSIZE cuts at byte counts and "
        "EIO injection, each followed by List/Load in a fresh process.",
   design="6/C19", technique="Lean 4 proof (crash-prefix lemma over syscall programs) + strace sequence correspondence + kill/error injection",
-  note="partial: A-os (atomic rename/unlink/open, data readable after a process stop; no power loss); needs ptrace; concurrent Save/Load mixes are not run yet"),
+  note="partial: A-os (atomic rename/unlink/open, data readable after a process stop; no power loss); needs ptrace; concurrency (one writer beside four loaders on one key) is searched over the runtime's schedules, not proved"),
  "C20": dict(
   text="Lean 4 theorems over the doubles as pure functions: the publish mock records a failure iff no expectation is left or message or "
        "topic differs (each independently), closed quit is ErrCanceled and uncounted, cleanup fails iff the counted calls differ from the "
@@ -88,7 +88,7 @@ CLAIMED = {
        "behind IsDeny/IsEnd/Backoff (nonNilIsAny with its explicit work list) is proved equal to 'some node of the error tree is a target' for "
        "error values of every shape (wrappers, joins of joins), and run against the real function, errors.Is and a second classification of the same value.",
   design="6/C14", technique="Lean 4 proof (decision logic over request outcomes) + differential correspondence + class monitor",
-  note="partial: the classifier over arbitrary wrapped/joined errors (nonNilIsAny) and Backoff/ReadBackoff kinds are not modelled yet; documented table transcribed by hand"),
+  note="documented table transcribed by hand; error texts and foreign Is methods are not modelled; Backoff is tied by the regenerated table fact (nil table = deny list + end list) and by a self-check on every error a request returns"),
  "C18": dict(
   text="Lean 4 theorems: CONNACK decision table for every reply (accepted iff 20 02 00 00, or 20 02 01 00 without clean session; return code "
        "checked before flags; wrong header, reserved flags, session-present on clean session are resets; short replies never connect), the "
